@@ -339,8 +339,12 @@ def fx_lru(fx):
         lru.touch(c, fx, "lrufx::Map::" + nm, "lrufx::Node::value")
     c2 = _ctx()
     n = lru.list_ops_under_index_lock(c2, fx, "src/lib.rs", "lrufx::Map", "Map::hash_map")
+    c3 = _ctx()
+    lru.evict_only_for_new(c3, fx, "lrufx::Map::ok_put", "lrufx::Node::value")
+    lru.evict_only_for_new(c3, fx, "lrufx::Map::bad_put", "lrufx::Node::value")
     return (_fires(c, "Map::bad_get_notouch") and not _fires(c, "Map::ok_get") and not _fires(c, "Map::bad_get_unlocked")
-            and n == 2 and _fires(c2, "Map::bad_get_unlocked") and not _fires(c2, "Map::ok_get"))
+            and n >= 2 and _fires(c2, "Map::bad_get_unlocked") and not _fires(c2, "Map::ok_get")
+            and _fires(c3, "Map::bad_put") and not _fires(c3, "Map::ok_put"))
 
 
 def fx_viewcursor(fx):
@@ -429,3 +433,24 @@ def fx_region(fx):
     for nm in ("ok_ptr_to_offset", "bad_ptr_to_offset"):
         refusal.region_upper_bound(c, fx, Fn(fx.raw("region::Pool::" + nm)), 2, r"memory_size$")
     return _fires(c, "Pool::bad_ptr_to_offset") and not _fires(c, "Pool::ok_ptr_to_offset")
+
+
+def fx_delegate(fx):
+    from rules import sibling
+    c = _ctx()
+    n = sibling.wrapper_delegation(c, fx, trait_suffix="delegate::BlobStore")
+    return n == 6 and _fires(c, "delegate::BadWrap") and not _fires(c, "delegate::OkWrap") and len(c.violations) == 2
+
+
+def fx_serde(fx):
+    from rules import flow
+    c = _ctx()
+    n = flow.serde_fields_restored(c, fx, r"BlobStore$", path_rx=r"serdefx")
+    return n == 2 and any("BadStoreBlobStore" in v["fn"] for v in c.violations) and not any("OkStoreBlobStore" in v["fn"] for v in c.violations)
+
+
+def fx_rangedep(fx):
+    from rules import linear
+    c = _ctx()
+    n = linear.end_from_start(c, fx, "rangedep::ok_range") + linear.end_from_start(c, fx, "rangedep::bad_range")
+    return n == 2 and _fires(c, "rangedep::bad_range") and not _fires(c, "rangedep::ok_range")
